@@ -180,6 +180,10 @@ def run_case(case, ctx):
             text = r.choice(["now", "jetzt", "abends", "evening", "morning", "this morning", "nachmittags", "right now", "morgens", "night"])
             d0 = r.choice([datetime(2020, 2, 25), datetime(2021, 3, 10), datetime(2023, 12, 31)])
             tss = [d0.replace(hour=h, minute=m) for h, m in r.sample([(5, 10), (12, 43), (21, 40), (0, 0), (17, 5), (23, 59)], 3)]
+            if case["i"] % 2 == 0:
+                # the same minute twelve hours apart (a key built with a 12-hour clock, or one that drops the hour)
+                h0, m0 = r.choice([(9, 15), (5, 0), (0, 30), (11, 59)])
+                tss = [d0.replace(hour=h0, minute=m0), d0.replace(hour=h0 + 12, minute=m0), d0.replace(hour=(h0 + 6) % 24, minute=m0)]
         entries = []
         for ts in tss:
             cands = [p for p in L.ctparse_gen(text, ts=ts, timeout=0, max_stack_depth=10, latent_time=False) if p is not None]
